@@ -576,6 +576,12 @@ class Stepper(Machine):
             tg = [t for t in self.prog.resolve_call(f, call) if isinstance(t, FuncInfo) and t.qualname in self.m.relevant]
             if tg:
                 return ("inline", tg[0], fr.self_obj)
+            # a closure of the current function shares its frame (and `self`): what it does to the protocol state cannot be skipped as opaque
+            for x in ast.walk(f.node):
+                if x is not f.node and ((isinstance(x, (ast.FunctionDef, ast.AsyncFunctionDef)) and x.name == fn.id)
+                                        or (isinstance(x, ast.Assign) and isinstance(x.value, ast.Lambda) and any(isinstance(t, ast.Name) and t.id == fn.id for t in x.targets))):
+                    if any(isinstance(y, ast.Attribute) for y in ast.walk(x)):
+                        raise AnalysisError(f"{self.loc(fr)}: call of the local closure `{fn.id}` (touches attributes) is outside the vocabulary of the synchronisation model")
         return ("opaque",)
 
     def shared_accesses(self, n: Node, fr: Frame, st: State) -> tuple[set, set]:
